@@ -164,7 +164,7 @@ func matchLogfmtLeaf(v GVal, raw string) string {
 		if raw != "<nil>" && raw != "null" {
 			return bad("nil placeholder")
 		}
-	case "string", "stringer", "error", "stackerr", "bytes", "textm":
+	case "string", "stringer", "tostring", "error", "stackerr", "bytes", "textm":
 		return quoted(v.S)
 	case "level":
 		return quoted(levelName(v.I))
